@@ -27,12 +27,22 @@ func VerifC17Gov() {
 	router := &baseapp.MsgServiceRouter{}
 	h := NewHookAdapter(nil, nil, router)
 	ctx := rt.Ctx()
-	rt.Abstract("(github.com/cosmos/cosmos-sdk/x/gov/types.MsgVote).ValidateBasic")
-	rt.Abstract("(github.com/cosmos/cosmos-sdk/x/gov/types.MsgVoteWeighted).ValidateBasic")
+	// stateless validation of the native message (the only place it happens for a message built by the hook): arbitrary outcome, counted
+	validated := 0
+	vb := func() error {
+		if rt.Bool("message-fails-stateless-validation") {
+			return stubErr{}
+		}
+		validated++
+		return nil
+	}
+	rt.Override("(github.com/cosmos/cosmos-sdk/x/gov/types.MsgVote).ValidateBasic", func(govtypes.MsgVote) error { return vb() })
+	rt.Override("(github.com/cosmos/cosmos-sdk/x/gov/types.MsgVoteWeighted).ValidateBasic", func(govtypes.MsgVoteWeighted) error { return vb() })
 	var routed []sdk.Msg
 	var routedOK []bool
 	rt.Override("(*github.com/cosmos/cosmos-sdk/baseapp.MsgServiceRouter).Handler", func(_ *baseapp.MsgServiceRouter, msg sdk.Msg) baseapp.MsgServiceHandler {
 		return func(ctx sdk.Context, req sdk.Msg) (*sdk.Result, error) {
+			rt.Assert("D6-an-executed-vote-passed-its-stateless-validation", validated > len(routed))
 			routed = append(routed, req)
 			ok := rt.Bool("vote-succeeds")
 			routedOK = append(routedOK, ok)
